@@ -136,7 +136,7 @@ func whoHandler(id uint32) vp.Handler {
 func pluginAccept(mux *plugin.MuxBroker, gb *plugin.GRPCBroker, r vp.Req) vp.Resp {
 	if mux != nil {
 		id := r.ID
-		if id == 0 {
+		if id == 0 && r.V != "id0" {
 			id = mux.NextId()
 		}
 		if r.K == "crash" {
@@ -152,7 +152,7 @@ func pluginAccept(mux *plugin.MuxBroker, gb *plugin.GRPCBroker, r vp.Req) vp.Res
 		return vp.Resp{ID: id}
 	}
 	id := r.ID
-	if id == 0 {
+	if id == 0 && r.V != "id0" { // V = "id0": the id 0 itself is meant (ids are the caller's choice)
 		id = gb.NextId()
 	}
 	if r.K == "crash" {
